@@ -366,4 +366,6 @@ def main(tier):
                   "increment == 1" % (succ, skipped),
                   "%s: %d success path(s) skip the rounding kernel without having decided `smallest_unit == Nanosecond && "
                   "increment == ONE` (decided only %s)" % (f.name, bad, why), f.loc)
+    from ..rules import extra
+    extra.check_to_string_prints_rounded(run, fx)
     return run.finish(EXPLANATION)
